@@ -26,14 +26,24 @@ ASSUMPTIONS = [
 ]
 
 REPS = ["bin", "bin8", "txt", "xml"]
+EXOTIC_LABELS = [["in-plane", "out-of-plane", "m-x", "m-y"], ["a b", "c d", "e f", "g  h"], ["|m|", "(q)", "<r>", "s+t"],
+                 ["m.x", "m.y", "m.z", "m.w"], ["1st", "2nd", "3rd", "4th"], ["x-component", "y-component", "z-component", "t-c"],
+                 ["\u03b1", "\u03b2", "\u03b3", "\u03b4"], ["a/b", "c", "d-e", "f_g-1"]]
 
 
 @st.composite
 def vtk_case(draw):
     g = draw(gen.geom(ndim=3, nmax=4, exps=(-9, 3), big_offsets=False, maxcells=60, tol=False))
     k = draw(st.integers(1, 4))
+    vdims = draw(gen.vdims_strategy(k))
+    if k > 1 and draw(st.integers(0, 3)) == 0:
+        # labels are free text for VTK (array names): hyphens, blanks, dots, brackets, non-ASCII
+        pool = draw(st.sampled_from(EXOTIC_LABELS))
+        vdims = [pool[i] for i in draw(st.permutations(range(4)))[:k]]
     return {"g": g, "subs": draw(gen.index_boxes(g["n"], 2)) if g["exp"] <= 0 else [], "k": k,
-            "vdims": draw(gen.vdims_strategy(k)), "seed": draw(st.integers(0, 2**31)),
+            # component -> axis mapping: default, or any assignment of the labels to the axes (None = unmapped)
+            "mapping": draw(st.one_of(st.none(), st.permutations([0, 1, 2, None][:max(k, 3)]).map(lambda p: list(p)[:k]))),
+            "vdims": vdims, "seed": draw(st.integers(0, 2**31)),
             "dtype": draw(st.sampled_from(["float", "float", "int", "int32", "int16"])), "mask": draw(gen.mask_spec(3)),
             "rep": draw(st.sampled_from(REPS)), "probes": [draw(gen.probe_spec(g["n"], ("c", "v", "f"))) for _ in range(6)],
             "save_subregions": draw(st.booleans()), "unit": draw(st.sampled_from(gen.FIELD_UNITS))}
@@ -57,6 +67,11 @@ def build(case):
         arr = arr.astype(case["dtype"])
     valid = gen.make_mask(case["mask"], n)
     kw = {"vdims": list(case["vdims"])} if case["vdims"] else {}
+    if case.get("mapping") and case["k"] > 1:
+        labels = list(case["vdims"] or gen.default_vdims(case["k"]))
+        dims = gen.dims_of(g)
+        mp = {labels[c]: (None if a is None else dims[a]) for c, a in enumerate(case["mapping"])}
+        kw["vdim_mapping"] = gen.shuffled_mapping(mp, case["seed"])
     f = df.Field(mesh, nvdim=case["k"], value=arr, dtype={"int": np.int64, "int32": np.int32, "int16": np.int16}.get(case["dtype"]), valid=valid,
                  unit=case["unit"], **kw)
     return mesh, f, arr, valid
